@@ -1,6 +1,7 @@
 package main
 
 import (
+	"syscall"
 	"bytes"
 	"crypto/md5"
 	"encoding/hex"
@@ -188,6 +189,7 @@ type outcome struct {
 	MD5   string `json:"md5"`
 	Alloc uint64 `json:"alloc"`
 	DurNS int64  `json:"dur_ns"`
+	CPUNS int64  `json:"cpu_ns"` // CPU time (user+system) of the process during the case
 	Leak  int    `json:"leak"`
 	Live  uint64 `json:"live,omitempty"` // peak of the live heap above its level before the decode
 	Err   string `json:"err,omitempty"`
@@ -324,7 +326,7 @@ func runStream(dict pdf.Dict, body []byte, big bool) (o outcome) {
 
 // ---- watchdog ----
 
-// allowedNS is the wall-clock allowance for a case that has consumed in bytes
+// allowedNS is the allowance of CPU time for a case that has consumed in bytes
 // and produced out bytes so far: two orders of magnitude above what the
 // unchanged tree needs (measured on the pinned tree: < 50 ms fixed, < 500 ns per byte).
 func allowedNS(in, out int64) int64 {
@@ -380,21 +382,55 @@ func runCase(c *tcase, big bool) outcome {
 	return o
 }
 
-// guarded runs f under the watchdog.  ok=false means the allowance ran out;
-// f may then still be running (a goroutine cannot be stopped).
+// cpuNS is the CPU time (user + system) this process has used so far.  A process that is
+// descheduled because the machine is busy accumulates none, so verdicts based on it do not
+// depend on the load the check runs under.
+func cpuNS() int64 {
+	var ru syscall.Rusage
+	if syscall.Getrusage(syscall.RUSAGE_SELF, &ru) != nil {
+		return 0
+	}
+	return ru.Utime.Nano() + ru.Stime.Nano()
+}
+
+const (
+	hangWall = 90 * time.Second // no output progress for this long ...
+	hangCPU  = int64(time.Second) // ... while using less CPU time than this: blocked, not slow
+)
+
+// guarded runs f under the watchdog.  The allowance ("base + per byte of input and output")
+// is an allowance of CPU time of this process (the decode is the only thing running in it
+// apart from the collector and, for live-heap cases, the sampler).  Wall-clock time only
+// serves as a hang guard: class "hang" is reported when for hangWall nothing was produced
+// AND next to no CPU time was used (a decoder that is blocked, not one that is slow or
+// starved of CPU).  ok=false: a verdict was reached while f may still be running.
 func guarded(in int64, allow func(in, out int64) int64, f func() outcome) (o outcome, ok bool) {
 	done := make(chan outcome, 1)
+	c0 := cpuNS()
 	go func() { done <- f() }()
 	tick := time.NewTicker(50 * time.Millisecond)
 	defer tick.Stop()
 	t0 := time.Now()
+	lastOut, lastT, lastCPU := int64(-1), t0, c0
 	for {
 		select {
 		case o = <-done:
+			o.CPUNS = cpuNS() - c0
+			if o.Class != "panic" && o.CPUNS > allow(in, o.N) {
+				// finished, but not within its allowance of CPU time
+				return outcome{Class: "timeout", DurNS: o.DurNS, CPUNS: o.CPUNS, N: o.N}, true
+			}
 			return o, true
 		case <-tick.C:
-			if time.Since(t0).Nanoseconds() > allow(in, curOut.Load()) {
-				return outcome{Class: "timeout", DurNS: time.Since(t0).Nanoseconds(), N: curOut.Load()}, false
+			cpu := cpuNS()
+			out := curOut.Load()
+			if cpu-c0 > allow(in, out) {
+				return outcome{Class: "timeout", DurNS: time.Since(t0).Nanoseconds(), CPUNS: cpu - c0, N: out}, false
+			}
+			if out != lastOut || cpu-lastCPU > hangCPU {
+				lastOut, lastT, lastCPU = out, time.Now(), cpu
+			} else if time.Since(lastT) > hangWall {
+				return outcome{Class: "hang", DurNS: time.Since(t0).Nanoseconds(), CPUNS: cpu - c0, N: out}, false
 			}
 		}
 	}
@@ -403,13 +439,19 @@ func guarded(in int64, allow func(in, out int64) int64, f func() outcome) (o out
 // ---- fresh-process replay of a suspected violation ----
 
 func replayFresh(dir string, c *tcase, big bool) []outcome {
+	return replayN(dir, c, big, 3)
+}
+
+// replayN runs the case n times, one fresh process after the other; each process judges
+// itself by the same CPU-time allowance and ends itself.
+func replayN(dir string, c *tcase, big bool, n int) []outcome {
 	b, _ := json.Marshal(c)
 	path := dir + "/suspect.json"
 	if err := os.WriteFile(path, b, 0o644); err != nil {
 		return nil
 	}
 	var res []outcome
-	for i := 0; i < 3; i++ {
+	for i := 0; i < n; i++ {
 		args := []string{"-replay", path}
 		if big {
 			args = append(args, "-big")
@@ -429,9 +471,10 @@ func replayFresh(dir string, c *tcase, big bool) []outcome {
 			if json.Unmarshal(bytes.TrimSpace(out.Bytes()), &o) != nil {
 				o = outcome{Class: "crash", Err: strings.TrimSpace(out.String())}
 			}
-		case <-time.After(10 * time.Minute):
+		case <-time.After(30 * time.Minute):
+			// the child judges itself; this only reaps a child that cannot even do that
 			cmd.Process.Kill()
-			o = outcome{Class: "timeout"}
+			o = outcome{Class: "crash", Err: "the replay process had to be killed"}
 		}
 		res = append(res, o)
 	}
@@ -451,7 +494,7 @@ func replayMain(path string, big bool) {
 		return
 	}
 	initSeeds()
-	leakGrace = 500 * time.Millisecond
+	leakGrace = 3 * time.Second
 	body := c.Body()
 	o, _ := guarded(int64(len(body)), allowFor(&c), func() outcome { return runCase(&c, big) })
 	out, _ := json.Marshal(o)
